@@ -280,6 +280,10 @@ func genC16(seed uint64, tier string, idx int) c16Data {
 		sc.Sources, sc.Stdin = splitSources(r, texts)
 		sc.Flags = []string{"-c", "-s"}
 		sc.Query = "."
+		if r.Bool(0.4) {
+			// the slurped value must also behave like `[inputs]` under every operation, not only print alike
+			sc.Query = kernel.Pick(r, slurpProbes)
+		}
 	case idx < tr.Order+tr.Slurp+tr.Raw:
 		d.Kind = "raw"
 		n := r.Range(0, 6)
@@ -351,6 +355,14 @@ func genC16(seed uint64, tier string, idx int) c16Data {
 	sc.Plan, sc.PlanClass = simio.GenPlan(r, len(sc.Stdin), []int{r.Intn(len(sc.Stdin) + 1)})
 	return d
 }
+
+// slurpProbes: operations under which `-s` and `-n [inputs]` must agree.
+var slurpProbes = []string{
+	"del(.[0:0])", "del(.[0])", "del(.[-1])", "(.[0] |= empty)", "delpaths([[0], [1]])", "del(.[])", "length", ".[1:]", "map(type)", ". + [1]", "tojson", "(.[0] = 1)", "(.[2] = 1)", "to_entries", "add", "sort", "first(.[]?)", "[paths]", "(.. |= .)", "type", ". == []", "keys", "reverse", "flatten", "[tostream]", "getpath([0])", "(.[] |= .)", "map(select(.id? != 1))", "(.[1:] = [])", "(.[:1] |= map(.))", "[.[]?] == .", "unique", "group_by(type)", "transpose?", "index(null)", "(.[length:] = [9])", "@json", "[limit(1; .[])]", "any, all", "min, max", "implode?", "join(\",\")?", "has(0)", "contains([])", "inside([])", "(. - [null])", "(. - .)", "tostring", "input_line_number?", "(to_entries | from_entries)?", "with_entries(.)?", "walk(.)", "[splits(\"a\")?]", "ltrimstr(\"a\")", "ascii_downcase?", "@csv?", "@sh?", "env | type", "$ENV | type", "[.[] | tojson] | join(\",\")", "path(.[0])", "[path(..)]", "pick(.[0])?", "to_entries | map(.key)", "(reduce .[] as $x (null; . + 1))", "[foreach .[] as $x (0; . + 1)]", "[.[] as [$a] ?// $a | $a]", "@text", "@base64", "fromjson?", "tojson | fromjson", "[.[:0], .[0:], .[:-1]]", "(.[0:0] |= [7])", "del(.[1:])", "del(.[:1])", "to_entries | del(.[0])", "[.[0], .[-1]]", "[first, last]?", "[nth(0)]?", "isvalid(.[0])?", "(.[0] //= 3)", "(.[0] += 1)?", "map(. // 0)", "map(tostring)", "indices(1)", "index(1)?", "combinations?", "getpath([0, \"id\"])?", "[..] | length", "[leaf_paths?]", "tostream | select(length == 2) | .[1]", "fromstream(tostream)",
+}
+
+// identityProbe leaves every JSON value as it is but takes containers through the deletion path.
+const identityProbe = `(if type == "array" then del(.[0:0]) elif type == "object" then del(.["\u0000 no such key"]) else . end)`
 
 // genArgs builds a scenario over the argument flags whose expected output is
 // known by construction.
@@ -440,6 +452,13 @@ func genArgs(r *kernel.Rand, d *c16Data) {
 		parts = append(parts, "$"+n)
 	}
 	parts = append(parts, "$ARGS.named", "$ARGS.positional")
+	if r.Bool(0.4) {
+		// pass every bound value through the update machinery with an operation that leaves any JSON
+		// value as it is: the values the command binds must behave like in-language values
+		for i := range parts {
+			parts[i] = "(" + parts[i] + " | " + identityProbe + ")"
+		}
+	}
 	sc.Query = "[" + strings.Join(parts, ", ") + "]"
 	sc.FromFile = r.Bool(0.3)
 	// expected, by construction
@@ -567,12 +586,18 @@ func judgeC16(d *c16Data, res Result) *kernel.Violation {
 		alt := *sc
 		alt.Flags = []string{"-c", "-n"}
 		alt.Query = "[inputs]"
+		if sc.Query != "." {
+			alt.Query = "[inputs] | " + sc.Query
+		}
 		r2 := alt.Run()
 		if r2.Panicked != "" {
 			return c16viol(d, "panic", "the command panicked on -n [inputs]: %s", r2.Panicked)
 		}
 		if res.Stdout != r2.Stdout || res.Exit != r2.Exit {
-			return c16viol(d, "slurp-equiv", "`-s .` and `-n [inputs]` differ\n-s .        : exit %d %q\n-n [inputs] : exit %d %q", res.Exit, kernel.Short2(res.Stdout, 400), r2.Exit, kernel.Short2(r2.Stdout, 400))
+			return c16viol(d, "slurp-equiv", "`-s Q` and `-n [inputs] | Q` differ for Q = %s\n-s Q             : exit %d %q\n-n [inputs] | Q  : exit %d %q", sc.Query, res.Exit, kernel.Short2(res.Stdout, 400), r2.Exit, kernel.Short2(r2.Stdout, 400))
+		}
+		if sc.Query != "." {
+			return nil
 		}
 		// and both equal the array of all documents
 		var docs []string
